@@ -184,6 +184,9 @@ pub enum Beh {
     Partial,
     /// Err of the connectivity class (a socket error of the client's transport - not the timeout failure)
     ErrConn,
+    /// API rejection that names an asset which is NOT one of the assets configured for the exchange (a fee asset,
+    /// say): the indexer cannot translate it. It still is the client's answer to the request.
+    ErrForeign,
 }
 
 /// Bounds of one exploration run (recorded in the case so that a replay rebuilds the same choice tree).
@@ -696,6 +699,7 @@ fn behaviours(kind: Kind, p: &Params) -> Vec<Beh> {
     };
     if p.err_classes {
         v.push(Beh::ErrConn);
+        v.push(Beh::ErrForeign);
     }
     v
 }
@@ -1184,7 +1188,8 @@ impl Sim<'_> {
                 // a batch is shown in full only when it is small
                 let batch_txt = if n <= 8 { format!("{batch:?}") } else { format!("{n} requests") };
                 viols.push((
-                    format!("C07/answer/{repeated}{}/expected={exp_s}/got={got}", r.kind.s()),
+                    format!("C07/answer/{repeated}{}/expected={exp_s}/got={got}{}", r.kind.s(),
+                        if matches!(completed[i], Some((_, Beh::ErrForeign, true))) && got == "none" { "/client-rejection-names-an-unconfigured-asset" } else { "" }),
                     format!(
                         "request #{i} {r:?} handed at t={h} (deadline t={deadline}), client answer {:?}: expected exactly one {exp_s}, observed {classes:?}{}{}",
                         completed[i].map(|c| (c.0, c.1)),
@@ -1263,6 +1268,7 @@ fn complete(client: &ScriptClient, batch: &[Req], b: Beh, pos: usize) -> bool {
                 Beh::Partial => Ok(open_meta(pos, st.quantity / Decimal::TWO)),
                 Beh::Err => Err(client_error(pos)),
                 Beh::ErrConn => Err(client_error_conn(pos)),
+                Beh::ErrForeign => Err(client_error_foreign(pos)),
             };
             // a late answer finds the receiver gone: that is fine
             let _ = tx.send(Order {
@@ -1279,6 +1285,7 @@ fn complete(client: &ScriptClient, batch: &[Req], b: Beh, pos: usize) -> bool {
             let state = match b {
                 Beh::Err => Err(client_error(pos)),
                 Beh::ErrConn => Err(client_error_conn(pos)),
+                Beh::ErrForeign => Err(client_error_foreign(pos)),
                 _ => Ok(cancelled_meta(pos)),
             };
             let _ = tx.send(OrderEvent { key: call.key.clone(), state });
@@ -1303,6 +1310,10 @@ fn client_error_indexed(pos: usize) -> OrderError {
 /// connectivity-class answer of the scripted client (the same value before and after indexing)
 fn client_error_conn<A, I>(pos: usize) -> OrderError<A, I> {
     OrderError::Connectivity(ConnectivityError::Socket(format!("scripted socket error #{pos}")))
+}
+/// rejection naming an asset outside the exchange's configured assets
+fn client_error_foreign(pos: usize) -> UnindexedOrderError {
+    UnindexedOrderError::Rejected(ApiError::BalanceInsufficient(AssetNameExchange::new("fee-asset-not-configured"), format!("scripted rejection #{pos}")))
 }
 fn tag_of_error(e: &OrderError) -> Option<usize> {
     match e {
@@ -1375,6 +1386,8 @@ fn judge_event(
                     Some(Beh::Partial) => o.state == OrderState::active(open_meta(pos, st.quantity / Decimal::TWO)),
                     Some(Beh::Err) => o.state == OrderState::inactive(client_error_indexed(pos)),
                     Some(Beh::ErrConn) => o.state == OrderState::inactive(client_error_conn::<AssetIndex, InstrumentIndex>(pos)),
+                    // no indexed form exists: any failure that is not the timeout failure passes as the client's answer
+                    Some(Beh::ErrForeign) => matches!(&o.state, OrderState::Inactive(InactiveOrderState::OpenFailed(_))),
                     None => false, // a response although the client never answered
                 };
                 if !ok {
@@ -1392,6 +1405,7 @@ fn judge_event(
                 let ok = match beh {
                     Some(Beh::Err) => c.state == Err(client_error_indexed(pos)),
                     Some(Beh::ErrConn) => c.state == Err(client_error_conn(pos)),
+                    Some(Beh::ErrForeign) => c.state.is_err(),
                     Some(_) => c.state == Ok(cancelled_meta(pos)),
                     None => false,
                 };
